@@ -33,7 +33,7 @@ def compile_parallel(ctx, rels, timeout=400):
             ctx.broken.append({'kind': 'proof', 'name': rel, 'detail': 'forbidden construct: ' + '; '.join(bad)})
         else:
             ok_files.append(rel)
-    res = ctx.coqc_many(ok_files, timeout)
+    res = ctx.coqc_many(ok_files, timeout, jobs=4)
     allok = len(ok_files) == len(rels)
     for rel in rels:
         txt = open(os.path.join(ctx.bdir, rel)).read()
@@ -283,6 +283,55 @@ def iso_correspondence(ctx, rng):
     return cases
 
 
+POLY_DEFS = '''
+Close Scope Q_scope.
+Definition close (m r : Q) : bool := Qle_bool (Qabs (m - r)) ((1 # 1099511627776) * (1 + Qabs m))%Q.
+Definition closes := list_eqb close.
+Definition FJ (d : nat) (phis : list poly) (dphis : list (list poly)) (pt : nat -> Q) : list Q :=
+  map (fun i => qeval (isoF_poly d phis i) pt) (seq 0 d) ++ map (fun ij => qeval (isoJ_poly d dphis (fst ij) (snd ij)) pt) (idx2 d).
+'''
+
+
+def poly_correspondence(ctx, rng, info):
+    """the polynomial model (basis expansion with the regenerated lbasis polynomials) evaluated by vm_compute at the
+    reference point and node coordinates of real cells vs MappingIsoparametric.F / DF on distorted and curved meshes with
+    dyadic node coordinates"""
+    import skfem as fe
+    from skfem.mapping import MappingIsoparametric
+    names = list(info)
+    cases = []
+    for tag, name in enumerate(names):
+        M = getattr(fe, info[name]['mesh'])
+        m0 = M()
+        if m0.t.shape[1] < 2 and hasattr(m0, 'refined') and info[name]['mesh'] in ('MeshLine1', 'MeshTri1', 'MeshQuad1', 'MeshTet1', 'MeshHex1'):
+            m0 = m0.refined(1)
+        d = info[name]['d']
+        for rep in range(ctx.n(1, 4)):
+            p = np.round(m0.doflocs * 8) / 8. + rng.integers(-2, 3, size=m0.doflocs.shape) / 32.
+            m = M(p, m0.t)
+            mi = MappingIsoparametric(m, m.elem(), m.bndelem)
+            npts = 3
+            X = rng.integers(0, 5, size=(d, npts)) / 4.
+            try:
+                F, DF = mi.F(X), mi.DF(X)
+            except Exception as e:  # noqa: BLE001
+                ctx.fail(f'iso-exception:{name}', f'MappingIsoparametric on {info[name]["mesh"]} raises {type(e).__name__}: {e}',
+                         {'mesh': info[name]['mesh'], 'doflocs': p.tolist(), 't': m.t.tolist()})
+                continue
+            edofs = m.dofs.element_dofs
+            for _ in range(ctx.n(4, 8)):
+                c, l = int(rng.integers(0, m.t.shape[1])), int(rng.integers(0, npts))
+                nodes = p[:, edofs[:, c]].T                      # node k, coordinate i
+                out = list(F[:, c, l]) + list(DF[:, :, c, l].reshape(-1))
+                cases.append((f'({cnat(tag)}, {qlist(X[:, l])}, {qlist(nodes)})', qlist(out), ('poly', name, nodes.tolist(), X[:, l].tolist())))
+                ctx.hist('poly_model_cell', name)
+    disp = '\n'.join(f'  | {t}%nat => FJ {info[n]["d"]} {n}_phi {n}_dphi pt' for t, n in enumerate(names))
+    defs = POLY_DEFS + ('Definition run_poly (c : nat * list Q * list Q) : list Q :=\n  let \'(tag, X, nodes) := c in let pt := lpt (X ++ nodes) in\n'
+                        '  match tag with\n' + disp + '\n  | _ => [] end.\n')
+    ctx.corr('iso_polynomial_model', 'From Coq Require Import List Arith Bool QArith Qabs.\nRequire Import Base.C09_Poly Base.C09_PolyQ '
+             'Model.C10_IsoPoly Gen.C10GenPoly.', 'run_poly', 'closes', cases, defs=defs, nontrivial=lambda r: True)
+
+
 # ------------------------------------------------------------------------------------------- the check
 
 def run(ctx):
@@ -309,15 +358,25 @@ def run(ctx):
     except TranslateError as e:
         ctx.broke('translator', 'c10_tr.generate(mapping_affine.py, mapping_isoparametric.py, refdom.py)', e)
         gen_ok = False
+    poly_info = None
+    if gen_ok:
+        try:
+            from .. import c10_poly
+            ptxt, poly_info = c10_poly.generate()
+            ctx.write_gen('C10GenPoly', ptxt)
+        except TranslateError as e:
+            ctx.broke('translator', 'c10_poly.generate(lbasis of the mesh elements, refdom, doflocs)', e)
     if gen_ok:
         dyn = ctx.copy_dyn()
         first = ['gen/C10Gen.v', 'dyn/C10_Tac.v']
         if ctx.compile_dyn(first):
-            compile_parallel(ctx, [d for d in dyn if d not in first])
+            compile_parallel(ctx, [d for d in dyn if d not in first] + (['gen/C10GenPoly.v'] if poly_info else []))
     ctx.prove()
     if gen_ok:
         affine_correspondence(ctx, rng)
         iso_correspondence(ctx, rng)
+        if poly_info:
+            poly_correspondence(ctx, rng, poly_info)
     from .. import c10_oracle
     c10_oracle.run(ctx, rng)
 
